@@ -547,6 +547,93 @@ pub fn check(prop: &str, tier: &str) -> i32 {
         }
     }
     rep.set("seed_sweep", json!({"seeds_per_protocol_and_config": sweep_n, "first_seed": crate::report::sweep_base(sweep_n), "generations": sweep_runs, "label": "sweep of a finite seed range in PRNG mode, default 60-300 opcodes; not exhaustive over 2^64 seeds"}));
+    // long seeded programs (3 000 and 12 000 opcodes): the region where memos pass 256 entries and stacks grow to hundreds of
+    // slots "by chance". Untraced, judged from the bytes; a labelled sweep like the one above, not exhaustive.
+    if matches!(prop, "C01" | "C02" | "C04" | "C05" | "C06" | "C10") {
+        use rayon::prelude::*;
+        let n: u64 = if tier == "quick" { 24 } else { 600 };
+        let jobs: Vec<(u8, usize, u64, usize)> = (0..=5u8)
+            .rev()
+            .flat_map(|p| [3_000usize, 12_000].into_iter().flat_map(move |t| (crate::report::sweep_base(n)..crate::report::sweep_base(n) + n).flat_map(move |sd| (0..2usize).map(move |c| (p, t, sd, c)))))
+            .collect();
+        let res: Vec<(Cfg, u64, Vec<Finding>, bool)> = jobs
+            .par_iter()
+            .map(|(p, t, sd, c)| {
+                let base = if prop == "C10" { Cfg::new(*p) } else { Cfg::new(*p).flags(true, true) };
+                let cfg = match c {
+                    0 => base.range(*t, *t),
+                    _ => base.range(*t, *t).muts(&FULL, 0.5, matches!(prop, "C04" | "C06" | "C10")),
+                };
+                let r = run_seed(&cfg, *sd, false);
+                let tr = trace::parse(&[], 0, false);
+                match r.bytes() {
+                    Some(b) => {
+                        let (ops, m) = analyse(b);
+                        let ctx = RunCtx { cfg: &cfg, script: &[], res: &r, tr: &tr, ops: &ops, m: m.as_ref() };
+                        let fs = mon(&ctx);
+                        (cfg, *sd, fs, true)
+                    }
+                    None => (cfg, *sd, vec![], false),
+                }
+            })
+            .collect();
+        let mut runs = 0u64;
+        let mut no_output = 0u64;
+        for (cfg, sd, fs, got) in res {
+            runs += 1;
+            if !got {
+                no_output += 1;
+            }
+            for fd in fs {
+                rep.finding_raw(&format!("{}:long-seeded", fd.class), &format!("{} seed {sd}: {}", cfg.describe(), fd.msg), json!({"kind": "seed", "config": cfg.to_json(), "seed": sd}));
+            }
+        }
+        if no_output > 0 {
+            rep.machinery.push(format!("long seeded programs: {no_output} of {runs} generations returned no bytes and could not be judged — that is C09's finding"));
+        }
+        rep.transitions += runs;
+        rep.set("long_seeded_sweep", json!({"opcode_counts": [3000, 12000], "seeds_per_protocol_count_and_config": n, "first_seed": crate::report::sweep_base(n), "generations": runs,
+            "label": "labelled sweep of a finite seed range in PRNG mode with long programs; not exhaustive"}));
+    }
+    // the same for the oracles that need the step-by-step trace (simulated stack / memo against the reference machine):
+    // 3 000-opcode programs only, fewer seeds
+    if matches!(prop, "C03" | "C17") {
+        use rayon::prelude::*;
+        let n: u64 = if tier == "quick" { 6 } else { 150 };
+        let jobs: Vec<(u8, u64, usize)> = (0..=5u8).rev().flat_map(|p| (crate::report::sweep_base(n)..crate::report::sweep_base(n) + n).flat_map(move |sd| (0..2usize).map(move |c| (p, sd, c)))).collect();
+        let res: Vec<(Cfg, u64, Vec<Finding>, bool)> = jobs
+            .par_iter()
+            .map(|(p, sd, c)| {
+                let cfg = match c {
+                    0 => Cfg::new(*p).flags(true, true).range(3_000, 3_000),
+                    _ => Cfg::new(*p).flags(true, true).range(3_000, 3_000).muts(&FULL, 0.5, false),
+                };
+                let r = run_seed(&cfg, *sd, true);
+                let tr = trace::parse(&r.events, 0, !cfg.mutators.is_empty());
+                match r.bytes() {
+                    Some(b) => {
+                        let (ops, m) = analyse(b);
+                        let ctx = RunCtx { cfg: &cfg, script: &[], res: &r, tr: &tr, ops: &ops, m: m.as_ref() };
+                        (cfg.clone(), *sd, mon(&ctx), true)
+                    }
+                    None => (cfg, *sd, vec![], false),
+                }
+            })
+            .collect();
+        let mut runs = 0u64;
+        for (cfg, sd, fs, got) in res {
+            runs += 1;
+            if !got {
+                rep.machinery.push(format!("long traced program {} seed {sd}: no bytes returned", cfg.describe()));
+            }
+            for fd in fs {
+                rep.finding_raw(&format!("{}:long-seeded", fd.class), &format!("{} seed {sd}: {}", cfg.describe(), fd.msg), json!({"kind": "seed", "config": cfg.to_json(), "seed": sd}));
+            }
+        }
+        rep.transitions += runs;
+        rep.set("long_seeded_sweep_traced", json!({"opcode_count": 3000, "seeds_per_protocol_and_config": n, "first_seed": crate::report::sweep_base(n), "generations": runs,
+            "label": "labelled sweep of a finite seed range in PRNG mode with 3 000-opcode programs, traced; not exhaustive"}));
+    }
     // every entry of the embedded module table, once through GLOBAL and once through INST (text arguments)
     if matches!(prop, "C04" | "C05") {
         use rayon::prelude::*;
